@@ -105,6 +105,27 @@ CLAIMS["C11"] = dict(
               "split list, stripped and lower-cased', not about characters. int() of the count is an uninterpreted partial function. "
               "NOT covered: 'the document parses as if the pragma line had been deleted' (parser-level), the pragma line shift in fix mode.")
 
+CLAIMS["C10"] = dict(
+    text="Proof, with ghost sets g_written (targets of shutil.copyfile) and g_files (temporary files that exist): one fix pass overwrites the "
+         "user's file iff it reports a fix iff line records or token fixes exist, and overwrites nothing else; the scheduler overwrites the file "
+         "iff it returns True; the file loop announces 'Fixed: f' iff the fixer reported f as fixed, did_fix_any_file iff some file was fixed, "
+         "FIXED_AT_LEAST_ONE_FILE iff fixed and no failure (C18); in scan / scan-stdin mode nothing is ever written and the stdin spool is "
+         "removed on every exit; no temporary file survives any exit of the fix pass (all 313 paths, exceptions included); structurally, every "
+         "file-system write site of pymarkdown/ is in a function reachable only under `if in_fix_mode`, or is the proved stdin spool, the log "
+         "handler or the API's fix_string.",
+    note=TB + "Known finding D8 (a level already written back is neither announced nor restored when a later level fails). Assumed: the token "
+              "pass __process_file_fix_tokens creates only the temporary file it returns; a fix record implies the bytes differ (a rule may "
+              "record a no-op fix); 'a file whose scan is clean is left byte-identical' rests on the rules (C09).")
+CLAIMS["C09"] = dict(
+    text="Proof of the scheduler fragment: __process_file_fix never fails internally (no ValueError from min() of an empty level map - D3 "
+         "fixed; only the exceptions of the passes can escape) and returns the disjunction of the passes; __process_file_fix_next_level "
+         "continues only with a strictly higher fix level (loop invariant over the trigger set, order-independent) and otherwise stops, so the "
+         "number of passes is bounded by the number of levels.",
+    note=TB + "This is the engine half only. NOT covered: that one run reaches a fixed point (fix(fix(d)) == fix(d)), that rules of different "
+              "levels do not undo each other, the per-rule 'fix is a projection' lemma planned in DESIGN.md 5/C09: these need the rules' token "
+              "logic and the re-parse. The assertion that triggered ids belong to higher levels is allowed to fail (AssertionError/KeyError are "
+              "listed as possible escapes).")
+
 NA = {
     "C01": "totality of the ~60 kLoC parser is a postcondition of TokenizedMarkdown.transform; no contract chain within reach without a Python deductive verifier (DESIGN.md 7)",
     "C02": "round-trip of parser + 5 kLoC regenerator needs the token stream specified as an encoding of the document (C03+C04+C05 in full) first (DESIGN.md 7)",
